@@ -473,6 +473,24 @@ def rule_label1(ctx: Ctx) -> RuleResult:
                             why.append(norm(v))
                     elif isinstance(v, ast.Call) and norm(v.func).startswith("super()"):
                         pass
+                    elif isinstance(v, ast.Name) and v.id != m.params[1]:
+                        # a local holding the prepared label, possibly lengthened by identifier characters (the suffix that
+                        # separates two keys with the same label)
+                        defs = [x for x in walk_no_nested(m.node) if isinstance(x, (ast.Assign, ast.AugAssign, ast.AnnAssign))
+                                and norm(x.targets[0] if isinstance(x, ast.Assign) else x.target) == v.id]
+                        base_defs = [x for x in defs if not isinstance(x, ast.AugAssign)]
+                        good_base = bool(base_defs) and all(
+                            isinstance(x.value, ast.Call) and norm(x.value.func) == "prepare_label" and x.value.args and
+                            norm(x.value.args[0]) == m.params[1] and
+                            {kw.arg: norm(kw.value) for kw in x.value.keywords}.get("to_snake_case") == snake and
+                            {kw.arg: norm(kw.value) for kw in x.value.keywords}.get("convert_unicode") == "self.convert_unicode"
+                            for x in base_defs)
+                        good_aug = all(isinstance(x.op, ast.Add) and isinstance(x.value, ast.Constant) and isinstance(x.value.value, str)
+                                       and x.value.value.replace("_", "a").isalnum() and x.value.value.isascii()
+                                       for x in defs if isinstance(x, ast.AugAssign))
+                        if not (good_base and good_aug):
+                            ok = False
+                            why.append(f"`{v.id}` is not prepare_label(...) plus identifier characters")
                     elif isinstance(v, ast.Name) and v.id == m.params[1]:
                         # returned unchanged only for constants tested by equality (sqlmodel's id / pk)
                         iff = m.module.parents.get(r)
